@@ -1,6 +1,6 @@
 \* intended: pointer semantics = value semantics, independence, parents closed; all histories <= 3 (quick tier) over <= 3 trees
 CONSTANTS DeepCopyRebindsParents = TRUE CopyHookBoundToCopy = TRUE FlattenCopiesTop = FALSE
-          Universe = "full" MaxTrees = 3 MaxOps = 3
+          Lib = "flat" Universe = "full" MaxTrees = 3 MaxOps = 3
 INIT Init
 NEXT Next
 VIEW ViewFull
